@@ -1,6 +1,6 @@
 \* C18: theorems + coefficient tables on the middle grid (3 values per symbol), theorems + tables (thorough tier)
 CONSTANTS
-    Nets = {"chain2", "branch", "rev", "sgn", "cycle", "ia", "iac", "pl"}
+    Nets = {"chain2", "branch", "rev", "sgn", "cycle", "ia", "iac", "ipar", "pl"}
     Grid = "mid"
     EmitOn = TRUE
 INIT Init
